@@ -33,6 +33,18 @@ func (u *recUnser) Unserialize(_ io.Reader, _ *native.UnserializeOptions, fo int
 
 const recKey = "*hx.recUnser"
 
+// failUnser records the format options it is handed and fails on the input "fail"
+type failUnser struct{ got *any }
+
+func (u *failUnser) Unserialize(r io.Reader, _ *native.UnserializeOptions, fo interface{}) (*sbom.Document, error) {
+	*u.got = fo
+	b, _ := io.ReadAll(r)
+	if string(b) == "fail" {
+		return nil, fmt.Errorf("driver refuses this input")
+	}
+	return sbom.NewDocument(), nil
+}
+
 var writerDefaults = []any{
 	[]any{[]any{"Indent", "4"}},
 	[]any{},
@@ -178,6 +190,19 @@ func ExecOpts(op M) (res any) {
 	var ws []*writer.Writer
 	var rs []*reader.Reader
 	sharedW, sharedR := map[string]writer.WriterOption{}, map[string]reader.ReaderOption{}
+	// "shp": one options struct, kept by the caller, handed to several constructor calls
+	sharedStruct := map[string]any{}
+	structOf := func(xm M, fresh any) any {
+		if xm["shp"] != true {
+			return fresh
+		}
+		k := fmt.Sprintf("%v/%s", xm["k"], js(xm["cell"]))
+		if p, ok := sharedStruct[k]; ok {
+			return p
+		}
+		sharedStruct[k] = fresh
+		return fresh
+	}
 	var gotA any
 	recA := &recUnser{"a", &gotA}
 	reader.RegisterUnserializer("verif/rec", recA)
@@ -214,12 +239,12 @@ func ExecOpts(op M) (res any) {
 						switch int(asInt(xm["k"])) {
 						case 0:
 							n, _ := strconv.Atoi(cellGet(xm["cell"], "Indent", "0"))
-							opts = append(opts, writer.WithRenderOptions(&native.RenderOptions{Indent: n}))
+							opts = append(opts, writer.WithRenderOptions(structOf(xm, &native.RenderOptions{Indent: n}).(*native.RenderOptions)))
 						case 1:
 							opts = append(opts, writer.WithSerializeOptions(&native.SerializeOptions{}))
 						case 2:
-							opts = append(opts, writer.WithStoreOptions(&storage.StoreOptions{NoClobber: cellGet(xm["cell"], "NoClobber", "false") == "true",
-								BackendOptions: cellGet(xm["cell"], "Backend", "")}))
+							opts = append(opts, writer.WithStoreOptions(structOf(xm, &storage.StoreOptions{NoClobber: cellGet(xm["cell"], "NoClobber", "false") == "true",
+								BackendOptions: cellGet(xm["cell"], "Backend", "")}).(*storage.StoreOptions)))
 						default:
 							return "unknown-op"
 						}
@@ -250,7 +275,7 @@ func ExecOpts(op M) (res any) {
 						case 0:
 							opts = append(opts, reader.WithUnserializeOptions(&native.UnserializeOptions{}))
 						case 1:
-							opts = append(opts, reader.WithRetrieveOptions(&storage.RetrieveOptions{BackendOptions: cellGet(xm["cell"], "Backend", "")}))
+							opts = append(opts, reader.WithRetrieveOptions(structOf(xm, &storage.RetrieveOptions{BackendOptions: cellGet(xm["cell"], "Backend", "")}).(*storage.RetrieveOptions)))
 						default:
 							return "unknown-op"
 						}
@@ -529,6 +554,26 @@ func optsGen(g *G, tier string) []M {
 				steps = append(steps, M{"s": "mutate", "i": 1.0, "k": kk, "key": optKeys[0], "val": "m1"})
 			}
 			steps = append(steps, M{"s": "new", "settings": []any{common}}, M{"s": "new", "settings": []any{own(), common}})
+		}
+		if g.Chance(0.12) {
+			// directed: one options struct, kept by the caller, is given to a first instance and then,
+			// followed by another struct of the same kind, to a second one (and the other way round):
+			// the later option decides for the instance it is given to, and the first instance keeps
+			// what it was built with
+			var a, b M
+			if isWriter {
+				if g.Chance(0.5) {
+					a = M{"t": "replace", "k": 0.0, "cell": []any{[]any{"Indent", "3"}}, "shp": true}
+					b = M{"t": "replace", "k": 0.0, "cell": []any{[]any{"Indent", "9"}}}
+				} else {
+					a = M{"t": "replace", "k": 2.0, "cell": []any{[]any{"NoClobber", "true"}, []any{"Backend", "b1"}}, "shp": true}
+					b = M{"t": "replace", "k": 2.0, "cell": []any{[]any{"NoClobber", "false"}, []any{"Backend", "b2"}}}
+				}
+			} else {
+				a = M{"t": "replace", "k": 1.0, "cell": []any{[]any{"Backend", "b1"}}, "shp": true}
+				b = M{"t": "replace", "k": 1.0, "cell": []any{[]any{"Backend", "b2"}}}
+			}
+			steps = []any{M{"s": "new", "settings": []any{a}}, M{"s": "new", "settings": []any{a, b}}, M{"s": "new", "settings": []any{b, a}}, M{"s": "new", "settings": []any{a}}}
 		}
 		ops = append(ops, M{"op": "optsHist", "kind": kind, "defaults": dfl, "steps": steps})
 	}
@@ -1045,6 +1090,39 @@ func execOptionSlices(isWriter bool) any {
 			bad("a reader built from the caller's option list has %s after another reader was built from its first %d options, before it had %s", got, k, full)
 			break
 		}
+	}
+	// a parse that fails inside the driver: the call's options are the caller's, before and after;
+	// the next reader they are used with hands its driver its own format options
+	{
+		var got any
+		fd := &failUnser{&got}
+		reader.RegisterUnserializer("verif/failrec", fd)
+		key := fmt.Sprintf("%T", fd)
+		rA, rB, rC := reader.New(reader.WithFormatOptions(key, "options-of-A")), reader.New(reader.WithFormatOptions(key, "options-of-B")), reader.New()
+		for _, shared := range []*reader.Options{{Format: "verif/failrec"}, rC.Options} {
+			shared.Format = "verif/failrec"
+			if _, err := rA.ParseStreamWithOptions(strings.NewReader("fail"), shared); err == nil {
+				bad("a parse whose driver fails returns no error")
+			} else if got != "options-of-A" {
+				bad("a reader with its own driver options, called with options that have none, handed the driver %v", got)
+			}
+			if v := shared.GetFormatOptions(key); v != nil {
+				bad("after a parse that failed in the driver the options of the call carry driver options %v they were not given", v)
+			}
+			if _, err := rB.ParseStreamWithOptions(strings.NewReader("ok"), shared); err != nil {
+				bad("a parse through the recording driver fails: %v", err)
+			} else if got != "options-of-B" {
+				bad("a second reader, called with options an earlier failed call on another reader had used, handed its driver %v instead of its own options-of-B", got)
+			}
+			if _, err := rA.ParseStreamWithOptions(strings.NewReader("ok"), shared); err != nil || got != "options-of-A" {
+				bad("the first reader, called again, handed its driver %v (error %v)", got, err)
+			}
+		}
+		rC.Options.Format = ""
+		if v := rC.Options.GetFormatOptions(key); v != nil {
+			bad("a reader whose options were lent to calls on other readers now has driver options %v", v)
+		}
+		reader.UnregisterUnserializer("verif/failrec")
 	}
 	call := &reader.Options{}
 	call.SetFormatOptions("k2", "for-this-call-only")
